@@ -544,7 +544,7 @@ fn rep_post_op(post: &str, line: &str, clean: bool) -> Option<(String, String)> 
     let v = line.split(" v=").nth(1)?.split(' ').next()?.to_string();
     let lives = line.split(" live=[").nth(1)?.split(']').next()?;
     let idx: Vec<String> = lives.split(',').filter(|t| !t.is_empty()).filter_map(|t| { let f: Vec<&str> = t.split(':').collect(); if f.len() >= 5 { Some(f[..5].join(":")) } else { None } }).collect();
-    Some((format!("repfile {} {} {}", post, v, if idx.is_empty() { "-".to_string() } else { idx.join(",") }), format!("ok rt=1 n={}", idx.len())))
+    Some((format!("repfile {} {} {}", post, v, if idx.is_empty() { "-".to_string() } else { idx.join(",") }), format!("ok rt=1 n={} clean=1", idx.len())))
 }
 
 fn new_device(path: &str, blocks: u64, version: u32) {
@@ -1283,7 +1283,7 @@ fn sec_recover(s: &mut Sink, rng: &mut Rng, workloads: usize, mutations: usize) 
             let rp = format!("{}/dev{}_repfile.feox", s.dir, w);
             std::fs::write(&rp, &pristine).unwrap();
             let lives = if idx.is_empty() { "-".to_string() } else { idx.join(",") };
-            s.emit(&format!("repfile-v{}", version), format!("repfile {} {} {}", rp, version, lives), format!("ok rt=1 n={}", idx.len()));
+            s.emit(&format!("repfile-v{}", version), format!("repfile {} {} {}", rp, version, lives), format!("ok rt=1 n={} clean=1", idx.len()));
         }
         // a file the store wrote and closed in good order reopens, and to what the store held (judged without the
         // model; TTL off and the clock where it was, so that nothing expires in between)
